@@ -106,6 +106,64 @@ theorem C19_keyed_events (k : KSt) (hk : KeyOk k) :
   · rename_i key _
     cases kfind k key <;> cases kfind (kstep k op).1 key <;> simp [diff1] <;> split <;> simp
 
+/-- **C19_keyed_I2.** "The active mode is never deleted", keys and records apart: in a state where every record carries
+its key, a mode that `ChangeActiveMode(id)` / `UpdateActiveMode` has just made active (the lookup goes by KEY) carries
+the id it was selected by, is still stored under that key, and `DeleteMode(id)` — whose guard compares IDS — is
+refused with FailedPrecondition whatever its options, at both API levels.  (`C19_keyed_untame_fails` is exactly the
+failure of this when a record does not carry its key.) -/
+theorem C19_keyed_I2 (k : KSt) (hk : KeyOk k) (id : String) (now : Nat) (am : Bool) (d : DOpts)
+    (hok : (kstep k (.changeActive id now)).2.isOk = true) :
+    let k' := (kstep k (.changeActive id now)).1
+    k'.active.id = id ∧ (kfind k' id).isSome = true ∧
+    kstep k' (.delete id am d) = (k', .err .failedPrecondition) ∧
+    (id ≠ "" → kstep k' (.sDelete id am) = (k', .err .failedPrecondition) ∧
+      kstep k (.sChangeActive id now) = kstep k (.changeActive id now)) := by
+  simp only [kstep, kchangeActive] at hok ⊢
+  cases hf : kfind k id with
+  | none => simp [hf, Res.isOk] at hok
+  | some m =>
+    have hmid : m.id = id := by
+      rw [kfind_abs hk] at hf
+      exact (find_some hf).2
+    have hact : (if k.active.id ≠ m.id then { m with start := some now } else m).id = id := by
+      split <;> exact hmid
+    simp only [hf]
+    refine ⟨hact, ?_, ?_, ?_⟩
+    · show (kfind k id).isSome = true
+      rw [hf]; rfl
+    · simp only [kdeleteMode, hact, if_true]
+    · intro hne
+      simp only [hne, if_false, kdeleteMode, hact, if_true, and_self]
+
+/-- **C19_pull_late.** A subscriber that joins PullModes / PullActiveMode LATER (after any tame prefix `pre` of the
+run, not updates-only): it is first sent the stored modes in listing order and the current active mode, then the
+events of the rest of the run.  While the seed arrives every prefix of it — and afterwards the view after EVERY
+event — has at most one normal mode and unique ids; after all events the view is the model's mode list; and the
+active mode it is seeded with names a stored mode once the active mode was changed. -/
+theorem C19_pull_late (modes : List Mode) (active : Mode) (hcfg : InitOk modes) (pre post : List Op)
+    (ht : ∀ op ∈ pre ++ post, op.Tame) :
+    let s := run (St.config modes active) pre
+    (∀ k, ((s.modes.take k).filter (·.normal)).length ≤ 1 ∧ ((s.modes.take k).map (·.id)).Nodup) ∧
+    (∀ k, let view := ((runEvents s post).take k).foldl applyEvent s.modes
+      (view.filter (·.normal)).length ≤ 1 ∧ (view.map (·.id)).Nodup) ∧
+    (runEvents s post).foldl applyEvent s.modes = (run (St.config modes active) (pre ++ post)).modes ∧
+    (s.changed = true → ∃ x ∈ s.modes, x.id = s.active.id) := by
+  have htpre : ∀ op ∈ pre, op.Tame := fun op h => ht op (by simp [h])
+  have htpost : ∀ op ∈ post, op.Tame := fun op h => ht op (by simp [h])
+  have hi : Inv active (run (St.config modes active) pre) := run_inv (inv_config modes active hcfg) pre htpre
+  refine ⟨?_, ?_, ?_, hi.i3⟩
+  · intro k
+    have hsub : ((run (St.config modes active) pre).modes.take k).Sublist (run (St.config modes active) pre).modes :=
+      List.take_sublist _ _
+    refine ⟨?_, List.Nodup.sublist (List.Sublist.map _ hsub) hi.nodup⟩
+    exact Nat.le_trans (List.Sublist.length_le (List.Sublist.filter _ hsub)) (normal_count_le_one hi)
+  · intro k
+    obtain ⟨s', hi', hv⟩ := view_prefix _ hi post htpost k
+    simp only [hv]
+    exact ⟨normal_count_le_one hi', hi'.nodup⟩
+  · rw [run_append]
+    exact view_full _ hi post htpost
+
 /-- **C19_keyed_keys.** The collection is a map: from any state with distinct keys, after ANY operations with ANY
 options (no tameness, no hypothesis on the records), the keys are distinct. -/
 theorem C19_keyed_keys (k : KSt) (h : (k.recs.map (·.1)).Nodup) (ops : List Op) :
@@ -153,6 +211,9 @@ example : KSt.config? [("a", mA), ("a", mB)] Mode.blank = none := by decide
 /-- the keyed model and `step` on a tame run: same listing, active mode and results -/
 example : (krun (KSt.config [("b", mB), ("a", mA)] Mode.blank) [.changeActive "b" 7, .delete "a" false {}]).abs
     = run (St.config [mB, mA] Mode.blank) [.changeActive "b" 7, .delete "a" false {}] := by decide
+/-- `C19_keyed_I2` is not vacuous: on `ksAB` the switch to `b` succeeds, after which `b` cannot be deleted -/
+example : (kstep ksAB (.changeActive "b" 5)).2.isOk = true ∧
+    (kstep (kstep ksAB (.changeActive "b" 5)).1 (.delete "b" true {})).2 = .err .failedPrecondition := by decide
 /-- after the untame write the keyed model still answers by key: the record without id is found under `b`, and the
 guard of `deleteMode` still refuses the id the active mode carries -/
 example : kfind (kstep ksAB (.update mB none { reset := some ⟨[.id], false⟩ })).1 "b" = some { mB with id := "" } ∧
